@@ -14,20 +14,20 @@ Models == UNION {{[j \in 1..n |-> [name |-> Names[j], kind |-> f[j].kind, bias |
 ClassKeys == {"QDense", "QConv2D", "QDepthwiseConv2D", "QActivation", "QBatchNormalization"}
 EntriesFor(key) ==
   IF key \in {"QDense", "QConv2D", "QDepthwiseConv2D"} THEN {"absent", "empty", "A", "B"}
-  ELSE IF key = "QActivation" THEN {"absent", "S", "D"}
+  ELSE IF key = "QActivation" THEN {"absent", "S", "D", "Dr", "Dl"}
   ELSE IF key = "QBatchNormalization" THEN {"absent", "N"}
-  ELSE {"absent", "empty", "A", "B", "S", "D", "N"}
+  ELSE {"absent", "empty", "A", "B", "S", "D", "Dr", "Dl", "N"}
 Keys == ClassKeys \cup {"n1", "n2", "n3"}
 \* a name entry must have the form its layer kind understands
 Fits(m, d) == \A k \in 1..Len(m) :
    LET e == d[m[k].name] IN
    \/ e = "absent"
    \/ (m[k].kind \in WeightKinds /\ e \in {"empty", "A", "B"})
-   \/ (m[k].kind \in {"Activation", "ReLU", "LeakyReLU"} /\ e \in {"S", "D"})
+   \/ (m[k].kind \in {"Activation", "ReLU", "LeakyReLU"} /\ e \in {"S", "D", "Dr", "Dl"})
    \/ (m[k].kind = "BatchNormalization" /\ e \in {"N", "empty"})
 \* the model is chosen first, the dictionary in a second (parallel) step, entry by entry
 NameEntries(l) == IF l.kind \in WeightKinds THEN {"absent", "empty", "A", "B"}
-                  ELSE IF l.kind = "BatchNormalization" THEN {"absent", "N", "empty"} ELSE {"absent", "S", "D"}
+                  ELSE IF l.kind = "BatchNormalization" THEN {"absent", "N", "empty"} ELSE {"absent", "S", "D", "Dr", "Dl"}
 NoDict == [k \in Keys |-> "absent"]
 Init == model \in Models /\ dict = NoDict /\ phase = 0
 Choose == /\ phase = 0 /\ phase' = 1 /\ model' = model
